@@ -51,7 +51,20 @@ def load_specs(modname):
             for m in n.body:
                 if isinstance(m, ast.FunctionDef):
                     out[f"{n.name}.{m.name}"] = m
+    # the same syntactic normal form as the analysed functions (sa/normalise.py)
+    from .normalise import normalise_function, default_purity
+    purity = None
+    if _SPEC_PURITY[0] is not None:
+        prog, eff = _SPEC_PURITY[0]
+        rep = next((f for f in prog.funcs.values() if f.module.modname == modname), None)      # calls resolve through the module's imports
+        if rep is not None:
+            purity = default_purity(prog, rep, eff)
+    for fn in out.values():
+        normalise_function(fn, purity)
     return out
+
+
+_SPEC_PURITY = [None]       # set by the context: purity oracle backed by the effect summaries of the analysed tree
 
 
 def _mask(t, lvnum):
